@@ -100,6 +100,7 @@ var onlyFilter string
 type storeDef struct{ base, idx, val string }
 
 type Eng struct {
+	covSeq int
 	ld   *Loaded
 	sc   *Script
 	spec *SpecFile
@@ -769,6 +770,8 @@ type Frame struct {
 	curBlock *ssa.BasicBlock
 	freeVals map[string]*Val
 	autoBounds map[*ssa.BasicBlock]func(*State, map[*ssa.Phi]*Val, *ssa.BasicBlock, string)
+	siteIns  ssa.Instruction
+	siteOrds map[ssa.Instruction]int
 }
 
 func sortBlocksRPO(fn *ssa.Function) ([]*ssa.BasicBlock, map[[2]int]bool) {
